@@ -156,7 +156,8 @@ static void transfer_big(Rng& rng, int npairs)
         make_grid_arrays(rng, nr, nt, p.R0, p.Rmax, p.radii, p.angles, true);
         // force non-uniform angles (antipodally symmetric): jitter every inner angle of the first half
         { int half = nt / 2; for (int j = 1; j < half; j++) { p.angles[j] = ((double)j + 0.6 * (rng.unit() - 0.5)) / half * M_PI; p.angles[j + half] = p.angles[j] + M_PI; } }
-        std::optional<double> split = rng.coin(0.5) ? std::optional<double>(rng.uniform(p.R0, p.Rmax)) : std::nullopt;
+        // alternately the automatic split and an explicit one well inside the domain: both sections are non-empty on both levels in every pair
+        std::optional<double> split = c % 2 == 1 ? std::optional<double>(rng.uniform(p.R0 + 0.2 * (p.Rmax - p.R0), p.R0 + 0.7 * (p.Rmax - p.R0))) : std::nullopt;
         Chain ch = make_chain(p, 2, true, true, split);
         if (ch.levels.size() < 2) continue;
         const Level& fine = *ch.levels[0];
